@@ -262,7 +262,7 @@ func itoa(i int) string {
 	return itoa(i/10) + string(rune('0'+i%10))
 }
 
-// ---- reference enumeration (information only: completeness is not demanded) -------------
+// ---- reference enumeration (completeness / non-vacuity oracle, see checker.complete) -------------
 
 // refChains enumerates every chain leaf -> ... -> root over the supplied pools that satisfies the
 // statement under its strictest reading (every intermediate counts for path length, strict EKU nesting).
@@ -326,7 +326,80 @@ func chainID(ch []*gcert) string {
 	return b.String()
 }
 
-// missReason guesses why a reference-valid chain is absent from Verify's answer (information only).
+// reasonOther / reasonRejoin: the two classes of miss that no per-chain rule of the search explains.
+const (
+	reasonOther  = "other: no documented pruning applies"
+	reasonRejoin = "an intermediate of the chain can be arrived at from the leaf along another prefix (the per-certificate memo of buildChains answers with the first arrival's chains)"
+)
+
+// rejoined: some intermediate ch[i] can also be arrived at, from the leaf, along a simple path through the
+// Intermediates pool that differs from ch[:i]. A link is "the parent's key verifies the child's signature"
+// (necessary for every arrival however candidates are selected), so this over-approximates the arrivals:
+// it can only make the completeness oracle more lenient, never stricter.
+func rejoined(p *pki, ch []*gcert) bool {
+	var uniq []*gcert
+	for _, x := range p.inters {
+		dup := false
+		for _, y := range uniq {
+			if y.id == x.g.id {
+				dup = true
+			}
+		}
+		if !dup {
+			uniq = append(uniq, x.g)
+		}
+	}
+	samePrefix := func(path []*gcert, i int) bool {
+		if len(path) != i {
+			return false
+		}
+		for j := range path {
+			if path[j].id != ch[j].id {
+				return false
+			}
+		}
+		return true
+	}
+	found := false
+	var rec func(path []*gcert)
+	rec = func(path []*gcert) {
+		if found {
+			return
+		}
+		tip := path[len(path)-1]
+		for i := 1; i+1 < len(ch); i++ {
+			in := false
+			for _, x := range path {
+				if x.id == ch[i].id {
+					in = true
+				}
+			}
+			if !in && sigOK(tip, ch[i]) && !samePrefix(path, i) {
+				found = true
+				return
+			}
+		}
+		if len(path) > 12 {
+			return
+		}
+		for _, x := range uniq {
+			in := false
+			for _, y := range path {
+				if y.id == x.id {
+					in = true
+				}
+			}
+			if !in && sigOK(tip, x) {
+				rec(append(path[:len(path):len(path)], x))
+			}
+		}
+	}
+	rec([]*gcert{p.leaf.g})
+	return found
+}
+
+// missReason names the documented rule of the search that explains why a reference-valid chain is absent from
+// Verify's answer; reasonOther when none does.
 func missReason(p *pki, ch []*gcert) string {
 	for _, r := range p.roots {
 		if bytes.Equal(r.g.der, p.leaf.g.der) && len(ch) > 1 {
@@ -362,5 +435,8 @@ func missReason(p *pki, ch []*gcert) string {
 			return "AKID selects other candidates than the issuer-name match"
 		}
 	}
-	return "other (memoisation in buildChains or search order)"
+	if rejoined(p, ch) {
+		return reasonRejoin
+	}
+	return reasonOther
 }
